@@ -1,5 +1,6 @@
 """R-VIEW / R-SLICE (C17, C16): DataView window translation and bounds, NDSize comparison semantics,
 dataSlice logic, subscripts on caller-owned vectors."""
+import re
 from ..absint import GenericInterp, Opaque, Unsupported
 from ..extract import AnalysisBroken
 from ..sem import Sem, Flow, term, unwrap, real_args, LOCAL_KINDS
@@ -315,8 +316,30 @@ def run_fill(prog, rep):
                     for e in find_enum(t):
                         kinds.add(e)
         need = {'Sample', 'Range', 'Set', 'DataFrame'} if pn != 'units' else set()
+        delegated = None
+        if pn != 'units' and pushes and not (need <= kinds):
+            # accepted alternative: the values come from maximumExtents(array)[i] = (first position, last position) for every kind
+            fl = Flow(sem, f)
+            vals = []
+            for c in pushes:
+                a = real_args(c)[0]
+                if 'maximumExtents' in fl.call_names(a):
+                    gets = [x for x in a.walk() if x.k == 'call' and (x.callee or {}).get('name') == 'get']
+                    plus = [x for x in a.walk() if (x.k == 'binop' or x.k == 'call') and x.get('op') == '+']
+                    which = sorted(set(re.sub(r'\D', '', str((x.callee.get('targs') or ['?'])[0])) for x in gets))
+                    vals.append((which, bool(plus)))
+            if vals:
+                want = ['0'] if pn == 'starts' else ['1']
+                if all(w == want and not pl for w, pl in vals):
+                    delegated = True
+                else:
+                    delegated = False
+                    bad.append('%s are padded with %s of maximumExtents(array)[i]: its second value is the position of the last element, not a length, so the padded end must be get<1> alone (adding the first position shifts or truncates slices on axes that do not start at 0)' % (
+                        pn, ' + '.join('get<%s>' % x for w, pl in vals for x in w)))
         if pn == 'units':
             okk = bool(pushes)
+        elif delegated is not None:
+            okk = delegated
         else:
             okk = need <= kinds
         rule.check(not bad and okk, 'fillPositionsExtentsAndUnits|%s' % pn, rep.where(f), f.label(), '%s filled for every kind, only where missing' % pn,
